@@ -52,7 +52,7 @@ func genPrincipals(r *c.Rng, max int) []string {
 func genSign(r *c.Rng) *Case {
 	k := &Case{Op: "sign"}
 	k.CA = c.Pick(r, []string{"both", "both", "both", "both", "both", "bothnodb", "bothnodb", "bothnodb", "bothnodb", "none", "user", "user", "host", "host", "fed"})
-	k.Prov = c.Pick(r, []string{"jwk", "jwk", "jwk", "x5c", "x5c", "oidc"})
+	k.Prov = c.Pick(r, []string{"jwk", "jwk", "jwk", "x5c", "x5c", "oidc", "nebula"})
 	k.Sub = c.Pick(r, subPool)
 	if r.Chance(1, 60) {
 		k.Sub = ""
@@ -75,6 +75,31 @@ func genSign(r *c.Rng) *Case {
 		k.Tok.Principals = genPrincipals(r, 4)
 		if r.Chance(1, 30) {
 			k.Tok.Principals = append(k.Tok.Principals, "")
+		}
+	}
+	if k.Prov == "nebula" {
+		k.NebHost = r.Intn(len(nebSpecs))
+		sp := nebSpecs[k.NebHost]
+		creds := []string{sp.name}
+		for _, cidr := range sp.ips {
+			creds = append(creds, strings.Split(cidr, "/")[0])
+		}
+		k.Sub = c.Pick(r, []string{sp.name, sp.name, "svc-1"})
+		k.NoSSH = r.Chance(1, 3)
+		k.Tok.CertType = c.Pick(r, []string{"", "", "host", "host", "host", "user", "HOST"})
+		k.Tok.Principals = nil
+		switch r.Intn(7) {
+		case 0, 1: // none: defaults to the certificate's names
+		case 2:
+			k.Tok.Principals = creds
+		case 3:
+			k.Tok.Principals = creds[:1]
+		case 4: // respelled address
+			k.Tok.Principals = []string{"::ffff:" + creds[1]}
+		case 5: // foreign principal
+			k.Tok.Principals = append(append([]string{}, creds...), c.Pick(r, []string{"other.neb", "10.1.9.9", "root", flipCase(sp.name)}))
+		default:
+			k.Tok.Principals = creds[1:]
 		}
 	}
 	// request options: mutation of the token's
@@ -148,6 +173,7 @@ func genPop(r *c.Rng) *Case {
 	k.Cert = Opts{CertType: "host", KeyID: c.Pick(r, []string{"host.example.com", "h1", ""}), Principals: genPrincipals(r, 3)}
 	k.SignBy, k.Window, k.TokKey, k.Aud, k.Iss, k.Key = "host", "ok", "cert", "ok", "ok", "ed"
 	k.SubSer = k.Op == "revoke"
+	k.Perms = c.Pick(r, []string{"crit", "crit", "ext", "both", "both", "none", "empty"})
 	// usually exactly one deviation from the valid request
 	for i := c.Pick(r, []int{0, 0, 0, 1, 1, 1, 1, 2, 3}); i > 0; i-- {
 		switch r.Intn(17) {
@@ -238,6 +264,14 @@ func corner() []*Case {
 		{Op: "sign", CA: "both", Prov: "oidc", Sub: "123", Email: adminEmail, Req: Opts{CertType: "host", Principals: []string{"h.example.com"}, KeyID: "h"}, Key: "ed"},
 		{Op: "sign", CA: "both", Prov: "oidc", Sub: "123", Email: adminEmail, Req: Opts{}, Key: "ed"},
 		{Op: "sign", CA: "both", Prov: "oidc", Sub: "123", Key: "ed"},
+		{Op: "sign", CA: "both", Prov: "nebula", NebHost: 0, Sub: "host-a.neb", NoSSH: true, Key: "ed"},
+		{Op: "sign", CA: "both", Prov: "nebula", NebHost: 0, Sub: "host-a.neb", NoSSH: true, Req: Opts{CertType: "user", Principals: []string{"root"}}, Key: "ed"},
+		{Op: "sign", CA: "both", Prov: "nebula", NebHost: 1, Sub: "Host-B.neb", Tok: Opts{CertType: "host", Principals: []string{"Host-B.neb", "10.1.2.8"}}, Key: "ed"},
+		{Op: "sign", CA: "both", Prov: "nebula", NebHost: 1, Sub: "Host-B.neb", Tok: Opts{Principals: []string{"host-b.neb"}}, Key: "ed"},
+		{Op: "sign", CA: "both", Prov: "nebula", NebHost: 0, Sub: "host-a.neb", Tok: Opts{Principals: []string{"host-a.neb", "root"}}, Key: "ed"},
+		{Op: "sign", CA: "both", Prov: "nebula", NebHost: 0, Sub: "host-a.neb", Tok: Opts{CertType: "user"}, Key: "ed"},
+		{Op: "sign", CA: "both", Prov: "nebula", NebHost: 0, Sub: "host-a.neb", Tok: Opts{Principals: []string{"::ffff:10.1.1.7"}}, Key: "ed"},
+		{Op: "sign", CA: "user", Prov: "nebula", NebHost: 0, Sub: "host-a.neb", NoSSH: true, Key: "ed"},
 		pop("renew", func(k *Case) {}),
 		pop("rekey", func(k *Case) {}),
 		pop("revoke", func(k *Case) {}),
@@ -257,6 +291,15 @@ func corner() []*Case {
 		pop("rekey", func(k *Case) { k.Key = "rsa1024" }),
 		pop("renew", func(k *Case) { k.CA = "user" }),
 		pop("renew", func(k *Case) { k.Aud = "wrong" }),
+		// permissions: critical options only / extensions only / both / neither
+		pop("renew", func(k *Case) { k.Perms = "crit" }),
+		pop("rekey", func(k *Case) { k.Perms = "crit" }),
+		pop("renew", func(k *Case) { k.Perms = "ext" }),
+		pop("rekey", func(k *Case) { k.Perms = "ext" }),
+		pop("renew", func(k *Case) { k.Perms = "none" }),
+		pop("rekey", func(k *Case) { k.Perms = "none" }),
+		pop("rekey", func(k *Case) { k.Perms = "empty" }),
+		pop("rekey", func(k *Case) { k.Perms = "both" }),
 		// federation: keys of other SSH CAs configured under ssh.keys with federated=true
 		pop("renew", func(k *Case) { k.CA = "fed" }),
 		pop("rekey", func(k *Case) { k.CA = "fed" }),
